@@ -25,6 +25,10 @@ import (
 type c08Re struct {
 	src      string
 	nullable bool
+	// unb: contains an unbounded repetition (*, +, {n,}).  Unbounded repetitions are not nested
+	// (star height 1): a backtracking matcher - the Lean model is one - needs exponential time on
+	// e.g. (a+)+b, which says nothing about the correspondence and would stall the run.
+	unb bool
 	// sample produces a string the regex is likely to match (random walk)
 	sample func(c *Ctx) string
 }
@@ -81,13 +85,13 @@ func c08GenRe(c *Ctx, depth int) c08Re {
 	switch k {
 	case 0, 1:
 		ch := c08ReAlpha[c.Rng.Intn(len(c08ReAlpha))]
-		return c08Re{c08ReLit(ch), false, func(*Ctx) string { return string(ch) }}
+		return c08Re{src: c08ReLit(ch), sample: func(*Ctx) string { return string(ch) }}
 	case 2:
 		src, in := c08ReClassItem(c)
 		if src[0] != '\\' {
 			src = "[" + src + "]"
 		}
-		return c08Re{src, false, func(c *Ctx) string { return c08PickByte(c, in, true) }}
+		return c08Re{src: src, sample: func(c *Ctx) string { return c08PickByte(c, in, true) }}
 	case 3:
 		// bracket class of 1-3 items, possibly negated
 		n := 1 + c.Rng.Intn(3)
@@ -116,31 +120,32 @@ func c08GenRe(c *Ctx, depth int) c08Re {
 			}
 			return false
 		}
-		return c08Re{sb.String(), false, func(c *Ctx) string {
+		return c08Re{src: sb.String(), sample: func(c *Ctx) string {
 			if neg && c.Rng.Intn(3) == 0 {
 				return []string{"é", "\xff", "😀", "\xe2\x98", "\n", "\x00"}[c.Rng.Intn(6)]
 			}
 			return c08PickByte(c, in, !neg)
 		}}
 	case 4:
-		return c08Re{`\b`, true, func(*Ctx) string { return "" }}
+		return c08Re{src: `\b`, nullable: true, sample: func(*Ctx) string { return "" }}
 	case 5:
 		if c.Rng.Intn(6) == 0 {
-			return c08Re{`^`, true, func(*Ctx) string { return "" }}
+			return c08Re{src: `^`, nullable: true, sample: func(*Ctx) string { return "" }}
 		}
-		return c08Re{`\d`, false, func(c *Ctx) string { return string(byte('0' + c.Rng.Intn(10))) }}
+		return c08Re{src: `\d`, sample: func(c *Ctx) string { return string(byte('0' + c.Rng.Intn(10))) }}
 	case 6, 7:
 		// concatenation
 		n := 2 + c.Rng.Intn(3)
 		parts := make([]c08Re, n)
 		var sb strings.Builder
-		nullable := true
+		nullable, unb := true, false
 		for i := range parts {
 			parts[i] = c08GenRe(c, depth-1)
 			sb.WriteString(parts[i].src)
 			nullable = nullable && parts[i].nullable
+			unb = unb || parts[i].unb
 		}
-		return c08Re{c08Group(c, sb.String()), nullable, func(c *Ctx) string {
+		return c08Re{src: c08Group(c, sb.String()), nullable: nullable, unb: unb, sample: func(c *Ctx) string {
 			var o strings.Builder
 			for _, p := range parts {
 				o.WriteString(p.sample(c))
@@ -152,21 +157,22 @@ func c08GenRe(c *Ctx, depth int) c08Re {
 		n := 2 + c.Rng.Intn(2)
 		parts := make([]c08Re, n)
 		srcs := make([]string, n)
-		nullable := false
+		nullable, unb := false, false
 		for i := range parts {
 			if c.Rng.Intn(10) == 0 {
-				parts[i] = c08Re{"", true, func(*Ctx) string { return "" }}
+				parts[i] = c08Re{src: "", nullable: true, sample: func(*Ctx) string { return "" }}
 			} else {
 				parts[i] = c08GenRe(c, depth-1)
 			}
 			srcs[i] = parts[i].src
 			nullable = nullable || parts[i].nullable
+			unb = unb || parts[i].unb
 		}
 		open := "(?:"
 		if c.Rng.Intn(4) == 0 {
 			open = "("
 		}
-		return c08Re{open + strings.Join(srcs, "|") + ")", nullable, func(c *Ctx) string {
+		return c08Re{src: open + strings.Join(srcs, "|") + ")", nullable: nullable, unb: unb, sample: func(c *Ctx) string {
 			return parts[c.Rng.Intn(n)].sample(c)
 		}}
 	default:
@@ -206,7 +212,13 @@ func c08GenRe(c *Ctx, depth int) c08Re {
 			// correspondence claims (Go's treatment of empty iterations changed between releases)
 			op, mn, mx = "?", 0, 1
 		}
-		return c08Re{src + op, a.nullable || mn == 0, func(c *Ctx) string {
+		if mx < 0 && a.unb {
+			// star height 1 (see c08Re.unb)
+			mn = c.Rng.Intn(3)
+			mx = mn + c.Rng.Intn(3)
+			op = fmt.Sprintf("{%d,%d}", mn, mx)
+		}
+		return c08Re{src: src + op, nullable: a.nullable || mn == 0, unb: a.unb || mx < 0, sample: func(c *Ctx) string {
 			n := mn
 			if mx < 0 {
 				n += c.Rng.Intn(4)
@@ -332,6 +344,9 @@ func c08ReInputs(c *Ctx, re c08Re) []string {
 				}
 			}
 		}
+		if len(s) > 24 {
+			s = s[:24]
+		}
 		if c.Rng.Intn(2) == 0 {
 			s += []string{" ", "a", "0", "_", ".", "\"", "é", "\xff", ",", "-", "e5", "\xe2\x98\x83", "\xe2\x98"}[c.Rng.Intn(13)]
 		}
@@ -342,6 +357,8 @@ func c08ReInputs(c *Ctx, re c08Re) []string {
 
 func c08Regex(c *Ctx) {
 	r := c.Res
+	t0 := time.Now()
+	defer func() { r.note("regex phase: %.1fs", time.Since(t0).Seconds()) }()
 	n := 1500
 	if c.Thorough {
 		n = 60000
@@ -845,7 +862,12 @@ func c08TokenStream(c *Ctx) {
 	}
 	hreps := c.Drv.AskBatch(hreqs)
 	for i, h := range heads {
-		id, v := syntax.VerifNextToken([]byte(h))
+		id, v, pn := c08NextTokenGuarded([]byte(h))
+		if pn != "" {
+			r.violate(Violation{Kind: "property", Key: "C08:panic:nextToken", What: "nextToken panics: " + pn,
+				Input: strconv.Quote(h), Impl: "panic: " + pn, Expect: "a token or INVALID", Broken: "Props.C08.lexer_progress_full"})
+			continue
+		}
 		g := fmt.Sprintf("%d %s", id, hx(string(v)))
 		r.count("next:"+h, len(v) > 0)
 		if g != hreps[i] {
